@@ -690,8 +690,13 @@ where
     }
 
     fn try_reallocate(&mut self, new_capacity: usize) -> Result<(), TryReserveError> {
+        let new_table = RawTable::try_with_capacity(new_capacity)?;
+        self.move_to_table(new_table);
+        Ok(())
+    }
+
+    fn move_to_table(&mut self, mut old_table: RawTable<Entry<K, V>>) {
         let hasher = make_hasher(&self.hash_builder);
-        let mut old_table = RawTable::try_with_capacity(new_capacity)?;
         mem::swap(&mut self.table, &mut old_table);
 
         for entry in old_table.into_iter() {
@@ -702,8 +707,6 @@ where
             prev_entry.get_mut().next = entry_ptr;
             next_entry.get_mut().prev = entry_ptr;
         }
-
-        Ok(())
     }
 
     fn reallocate(&mut self, new_capacity: usize) {
@@ -968,7 +971,15 @@ where
         let new_capacity = self.len().max(min_capacity);
 
         if self.capacity() > new_capacity {
-            self.reallocate(new_capacity);
+            let new_table = RawTable::try_with_capacity(new_capacity).unwrap();
+
+            // Removed entries may have left tombstones behind which lower
+            // the capacity of the current table, so a new table, even one
+            // with fewer buckets, may offer more. Never raise the capacity.
+
+            if new_table.capacity() < self.capacity() {
+                self.move_to_table(new_table);
+            }
         }
     }
 
